@@ -242,6 +242,13 @@ def rule_drivers(r):
             for i, (what, ok) in enumerate(roles):
                 r.check(ok, f, cls + "._call_kernel", "argument %d: %s = %s" % (i, what, txt[i][:60]), al.value.elts[i].lineno,
                         "matches the C signature (nq, pd_start, pd_stop, details, values, q, result, cutoff, mode)")
+        # ---- the caller's request is used as given -------------------------------------------------------------------
+        ps_ = [a.arg for a in ck.args.args if a.arg != "self"]
+        rebound = sorted({n_.id for n_ in ast.walk(ck) if isinstance(n_, ast.Name) and isinstance(n_.ctx, ast.Store) and n_.id in ps_})
+        r.check(not rebound, f, cls + "._call_kernel", "arguments %s are not rebound" % ps_, ck.lineno,
+                "kernel selection, cutoff and mode are the caller's" if not rebound else
+                "%s rebound inside the driver: the kernel variant / cutoff / mode used is no longer the one Kernel.Iq/Fq decided "
+                "(e.g. a magnetic request evaluated by the non-magnetic kernel)" % rebound)
         # ---- result size ---------------------------------------------------------------------------------------------
         init = mod.func(cls + ".__init__")
         ri = pyval.fold_function(init)
